@@ -1,11 +1,722 @@
-//! (stub) driver module - see tools/HOWTO.md
-use crate::util::Args;
+//! C04 / C15 drivers: text formats written by the engine parse back to the same picture.
+//!
+//! One case = one single-layer buffer + save options, saved through `Buffer::to_bytes(ext)` and reloaded through
+//! `Buffer::from_bytes("x.<ext>")`.  Event `rt`: options, source cells + palette, the writer's bytes tokenised,
+//! reloaded cells + palette.  Rows are recorded without their trailing cells that are plain default blanks
+//! (space or NUL, fg 7, bg 0, no attribute bit), which both trace modules read back as default blanks.
+use crate::util::{guard, msg_class, panic_site, rng, Args, Out};
+use icy_engine::{AttributedChar, Buffer, BufferType, ControlCharHandling, IceMode, SaveOptions, ScreenPreperation, TextAttribute, TextPane};
+use rand::rngs::StdRng;
+use rand::seq::SliceRandom;
+use rand::Rng;
+use serde_json::{json, Value};
+use std::path::PathBuf;
 
-pub fn c04(_a: &Args) {
-    eprintln!("c04: driver not built yet");
-    std::process::exit(2);
+// ------------------------------------------------------------------ common
+#[derive(Clone, Copy, Debug, PartialEq)]
+pub struct Cell {
+    pub ch: u32,
+    pub fg: u32,
+    pub bg: u32,
+    pub flags: u32, // bit0 bold, bit1 blink, bit2 faint, bit3 italic, bit4 underlined, bit5 crossed out, bit6 double underlined, bit7 concealed
 }
-pub fn c15(_a: &Args) {
-    eprintln!("c15: driver not built yet");
-    std::process::exit(2);
+
+pub const DEFAULT_CELL: Cell = Cell { ch: 32, fg: 7, bg: 0, flags: 0 };
+
+fn attr_of(c: &Cell) -> TextAttribute {
+    let mut a = TextAttribute::new(c.fg, c.bg);
+    a.set_is_bold(c.flags & 1 != 0);
+    a.set_is_blinking(c.flags & 2 != 0);
+    a.set_is_faint(c.flags & 4 != 0);
+    a.set_is_italic(c.flags & 8 != 0);
+    a.set_is_underlined(c.flags & 16 != 0);
+    a.set_is_crossed_out(c.flags & 32 != 0);
+    a.set_is_double_underlined(c.flags & 64 != 0);
+    a.set_is_concealed(c.flags & 128 != 0);
+    a
+}
+
+fn cell_of(ch: AttributedChar) -> Cell {
+    let a = ch.attribute;
+    let flags = a.is_bold() as u32
+        | (a.is_blinking() as u32) << 1
+        | (a.is_faint() as u32) << 2
+        | (a.is_italic() as u32) << 3
+        | (a.is_underlined() as u32) << 4
+        | (a.is_crossed_out() as u32) << 5
+        | (a.is_double_underlined() as u32) << 6
+        | (a.is_concealed() as u32) << 7;
+    Cell { ch: ch.ch as u32, fg: a.get_foreground(), bg: a.get_background(), flags }
+}
+
+fn plain_blank(c: &Cell) -> bool {
+    (c.ch == 32 || c.ch == 0) && c.fg == 7 && c.bg == 0 && c.flags == 0
+}
+
+/// rows of a buffer as seen through `get_char`, trailing plain blanks dropped
+fn rows_json(buf: &Buffer) -> Value {
+    let mut rows = Vec::new();
+    for y in 0..buf.get_height().max(buf.get_line_count()) {
+        let mut row: Vec<Cell> = (0..buf.get_width()).map(|x| cell_of(buf.get_char((x, y)))).collect();
+        while row.last().map_or(false, plain_blank) {
+            row.pop();
+        }
+        rows.push(Value::Array(row.iter().map(|c| json!([c.ch, c.fg, c.bg, c.flags])).collect()));
+    }
+    Value::Array(rows)
+}
+
+fn pal_json(buf: &Buffer) -> Value {
+    Value::Array((0..buf.palette.len()).map(|i| { let (r, g, b) = buf.palette.get_rgb(i as u32); json!([r, g, b]) }).collect())
+}
+
+fn ice_name(m: IceMode) -> &'static str {
+    match m {
+        IceMode::Unlimited => "unlimited",
+        IceMode::Blink => "blink",
+        IceMode::Ice => "ice",
+    }
+}
+
+fn ice_of(n: u64) -> IceMode {
+    match n {
+        0 => IceMode::Blink,
+        1 => IceMode::Ice,
+        _ => IceMode::Unlimited,
+    }
+}
+
+/// a source picture: rows of cells (a row may be shorter than the width: the rest is never written)
+#[derive(Clone, Debug)]
+pub struct Pic {
+    pub w: i32,
+    pub h: i32,
+    pub ice: IceMode,
+    pub rows: Vec<Vec<Cell>>,
+    pub extra_colors: Vec<(u8, u8, u8)>, // appended to the DOS palette; cells refer to them as 16 + i
+}
+
+fn build(p: &Pic) -> Buffer {
+    let mut buf = Buffer::new((p.w, p.h));
+    buf.ice_mode = p.ice;
+    buf.is_terminal_buffer = false;
+    for (r, g, b) in &p.extra_colors {
+        buf.palette.push(icy_engine::Color::new(*r, *g, *b));
+    }
+    for (y, row) in p.rows.iter().enumerate() {
+        for (x, c) in row.iter().enumerate() {
+            buf.layers[0].set_char((x as i32, y as i32), AttributedChar::new(char::from_u32(c.ch).unwrap(), attr_of(c)));
+        }
+    }
+    buf
+}
+
+// ------------------------------------------------------------------ ANSI tokens
+/// Tokens of the ANSI writer's output: [0, bytes..] literal run, [1, final, private, intermediate, params..] CSI,
+/// [2, byte] ESC + byte, [3, bytes..] anything else (never produced by the writer in the C04 domain).
+pub fn tokenize_ansi(b: &[u8]) -> Value {
+    let mut toks: Vec<Value> = Vec::new();
+    let mut lit: Vec<u8> = Vec::new();
+    let mut i = 0;
+    let flush = |lit: &mut Vec<u8>, toks: &mut Vec<Value>| {
+        if !lit.is_empty() {
+            let mut v = vec![json!(0)];
+            v.extend(lit.iter().map(|x| json!(x)));
+            toks.push(Value::Array(v));
+            lit.clear();
+        }
+    };
+    while i < b.len() {
+        if b[i] == 0x1B && i + 1 < b.len() {
+            flush(&mut lit, &mut toks);
+            if b[i + 1] == b'[' {
+                let mut j = i + 2;
+                let mut private = 0;
+                if j < b.len() && (b[j] == b'?' || b[j] == b'=' || b[j] == b'<' || b[j] == b'>') {
+                    private = b[j];
+                    j += 1;
+                }
+                let mut params: Vec<i64> = Vec::new();
+                let mut cur: Option<i64> = None;
+                while j < b.len() && (b[j].is_ascii_digit() || b[j] == b';') {
+                    if b[j] == b';' {
+                        params.push(cur.take().unwrap_or(0));
+                        cur = Some(0);
+                    } else {
+                        cur = Some((cur.unwrap_or(0) * 10 + (b[j] - b'0') as i64).min(1 << 30));
+                    }
+                    j += 1;
+                }
+                if let Some(c) = cur {
+                    params.push(c);
+                }
+                let mut inter = 0;
+                if j < b.len() && (0x20..0x30).contains(&b[j]) {
+                    inter = b[j];
+                    j += 1;
+                }
+                if j < b.len() {
+                    let mut v = vec![json!(1), json!(b[j]), json!(private), json!(inter)];
+                    v.extend(params.iter().map(|x| json!(x)));
+                    toks.push(Value::Array(v));
+                    i = j + 1;
+                } else {
+                    let mut v = vec![json!(3)];
+                    v.extend(b[i..].iter().map(|x| json!(x)));
+                    toks.push(Value::Array(v));
+                    i = b.len();
+                }
+            } else {
+                toks.push(json!([2, b[i + 1]]));
+                i += 2;
+            }
+        } else {
+            lit.push(b[i]);
+            if lit.len() >= 200 {
+                flush(&mut lit, &mut toks);
+            }
+            i += 1;
+        }
+    }
+    flush(&mut lit, &mut toks);
+    Value::Array(toks)
+}
+
+/// Observation on the writer's output: the first output row on which a cursor-forward sequence (CSI n C) moves the
+/// cursor to or beyond the right margin (-1 if none).  Used only to label violations with their input class.
+fn cuf_margin_row(b: &[u8], w: i32) -> i32 {
+    let (mut x, mut row, mut i) = (0i32, 0i32, 0usize);
+    while i < b.len() {
+        if b[i] == 0x1B && i + 1 < b.len() && b[i + 1] == b'[' {
+            let mut j = i + 2;
+            let mut n = 0i32;
+            let mut first = true;
+            let mut first_n = 0i32;
+            while j < b.len() && !(0x40..=0x7E).contains(&b[j]) {
+                if b[j].is_ascii_digit() {
+                    n = n.saturating_mul(10).saturating_add((b[j] - b'0') as i32);
+                } else if b[j] == b';' {
+                    if first { first_n = n; first = false; }
+                    n = 0;
+                }
+                j += 1;
+            }
+            if first { first_n = n; }
+            if j < b.len() {
+                match b[j] {
+                    b'C' => {
+                        if x + first_n.max(1) >= w {
+                            return row;
+                        }
+                        x += first_n.max(1);
+                    }
+                    b'H' => {
+                        row = (first_n - 1).max(0);
+                        x = 0;
+                    }
+                    b'b' => {
+                        for _ in 0..first_n { x += 1; if x >= w { x = 0; row += 1; } }
+                    }
+                    _ => {}
+                }
+            }
+            i = j + 1;
+        } else if b[i] == 0x1B && i + 1 < b.len() {
+            x += 1;
+            if x >= w { x = 0; row += 1; }
+            i += 2;
+        } else {
+            match b[i] {
+                13 => x = 0,
+                10 => { x = 0; row += 1; }
+                _ => { x += 1; if x >= w { x = 0; row += 1; } }
+            }
+            i += 1;
+        }
+    }
+    -1
+}
+
+// ------------------------------------------------------------------ C04
+#[derive(Clone, Debug)]
+struct AnsOpts {
+    sauce: bool,
+    compress: bool,
+    cuf: bool,
+    rep: bool,
+    preserve: bool,
+    longer: bool,
+    extcol: bool,
+    normws: bool,
+    prep: u64,
+    ctrl: u64,
+}
+
+impl AnsOpts {
+    fn from_json(v: &Value) -> AnsOpts {
+        let b = |k: &str| v[k].as_u64().unwrap_or(0) == 1;
+        AnsOpts { sauce: b("sauce"), compress: b("compress"), cuf: b("cuf"), rep: b("rep"), preserve: b("preserve"), longer: b("longer"), extcol: b("extcol"), normws: b("normws"),
+                  prep: v["prep"].as_u64().unwrap_or(0), ctrl: v["ctrl"].as_u64().unwrap_or(0) }
+    }
+    fn json(&self) -> Value {
+        json!({"sauce":self.sauce as u8,"compress":self.compress as u8,"cuf":self.cuf as u8,"rep":self.rep as u8,"preserve":self.preserve as u8,"longer":self.longer as u8,
+               "extcol":self.extcol as u8,"normws":self.normws as u8,"prep":self.prep,"ctrl":self.ctrl})
+    }
+    fn save_options(&self) -> SaveOptions {
+        let mut o = SaveOptions::new();
+        o.save_sauce = self.sauce;
+        o.compress = self.compress;
+        o.use_cursor_forward = self.cuf;
+        o.use_repeat_sequences = self.rep;
+        o.preserve_line_length = self.preserve;
+        o.longer_terminal_output = self.longer;
+        o.use_extended_colors = self.extcol;
+        o.normalize_whitespaces = self.normws;
+        o.lossles_output = true; // the colour optimiser is C12's business
+        o.modern_terminal_output = false; // excluded by the property
+        o.screen_preparation = prep_of(self.prep);
+        o.control_char_handling = match self.ctrl {
+            0 => ControlCharHandling::Ignore,
+            1 => ControlCharHandling::IcyTerm,
+            _ => ControlCharHandling::FilterOut,
+        };
+        o
+    }
+    fn random(r: &mut StdRng) -> AnsOpts {
+        AnsOpts { sauce: r.gen(), compress: r.gen(), cuf: r.gen(), rep: r.gen(), preserve: r.gen(), longer: r.gen(), extcol: r.gen(), normws: r.gen(), prep: r.gen_range(0..3), ctrl: r.gen_range(0..3) }
+    }
+}
+
+fn prep_of(n: u64) -> ScreenPreperation {
+    match n {
+        0 => ScreenPreperation::None,
+        1 => ScreenPreperation::ClearScreen,
+        _ => ScreenPreperation::Home,
+    }
+}
+
+/// characters the ANSI writer treats as control characters (StringGenerator::CONTROL_CHARS)
+const ANSI_CTRL: [u32; 8] = [0x1B, 0x07, 0x08, 0x09, 0x0C, 0x7F, 0x0D, 0x0A];
+
+/// the cell alphabet of the small-scope buffers (index as in MC_AnsiOut.tla)
+fn alphabet_cell(i: u64) -> Cell {
+    match i {
+        0 => DEFAULT_CELL,                                   // blank, default
+        1 => Cell { ch: 32, fg: 7, bg: 4, flags: 0 },        // blank on colour
+        2 => Cell { ch: 32, fg: 7, bg: 0, flags: 2 },        // blinking blank
+        3 => Cell { ch: 65, fg: 7, bg: 0, flags: 0 },        // A default
+        4 => Cell { ch: 65, fg: 4, bg: 2, flags: 0 },        // A in colours
+        5 => Cell { ch: 65, fg: 12, bg: 0, flags: 0 },       // bright
+        6 => Cell { ch: 65, fg: 7, bg: 9, flags: 0 },        // bright (ice) background
+        _ => Cell { ch: 65, fg: 16, bg: 0, flags: 0 },       // RGB colour (palette entry 16)
+    }
+}
+
+fn emit_rt(out: &mut Out, fmt: &str, id: u64, kind: &str, p: &Pic, buf: &Buffer, opts_json: Value, so: &SaveOptions, tokens: bool) {
+    // the (slow) model layer of the trace module runs on small pictures and on every eighth large one
+    let ncells: usize = p.rows.iter().map(Vec::len).sum();
+    let model = if tokens { ncells <= 1200 || id % 4 == 0 } else { ncells <= 1200 || id % 2 == 0 };
+    let mut ev = json!({"ev":"rt","fmt":fmt,"case":id,"kind":kind,"opts":opts_json,"ice":ice_name(p.ice),"w":p.w,"h":p.h,"pal":pal_json(buf),"src":rows_json(buf),"model":model as u8});
+    let saved = guard(|| buf.to_bytes(fmt, so).map_err(|e| e.to_string()));
+    let bytes = match saved {
+        Ok(Ok(b)) => b,
+        Ok(Err(e)) => {
+            ev["save"] = json!("err");
+            ev["site"] = json!(msg_class(&e));
+            out.ev(&ev);
+            return;
+        }
+        Err(pi) => {
+            ev["save"] = json!("panic");
+            ev["site"] = json!(panic_site(&pi));
+            out.ev(&ev);
+            return;
+        }
+    };
+    ev["save"] = json!("ok");
+    ev["nbytes"] = json!(bytes.len());
+    // the SAUCE record (if any) is not part of the token stream
+    let end = if so.save_sauce { icy_engine::SauceData::extract(&bytes).ok().flatten().map_or(bytes.len(), |s| bytes.len() - s.sauce_header_len) } else { bytes.len() };
+    if !tokens {
+        ev["bytes"] = if model { json!(bytes) } else { json!([]) };
+    } else if !model {
+        ev["tokens"] = json!([]);
+        ev["cuf_margin"] = json!(cuf_margin_row(&bytes[..end], p.w));
+    } else {
+        ev["cuf_margin"] = json!(cuf_margin_row(&bytes[..end], p.w));
+        ev["tokens"] = tokenize_ansi(&bytes[..end]);
+    }
+    let name = PathBuf::from(format!("x.{fmt}"));
+    match guard(|| Buffer::from_bytes(&name, true, &bytes).map_err(|e| e.to_string())) {
+        Ok(Ok(b)) => {
+            ev["load"] = json!("ok");
+            ev["bw"] = json!(b.get_width());
+            ev["bh"] = json!(b.get_height());
+            ev["bice"] = json!(ice_name(b.ice_mode));
+            ev["bpal"] = pal_json(&b);
+            ev["back"] = rows_json(&b);
+            ev["blayers"] = json!(b.layers.len());
+        }
+        Ok(Err(e)) => {
+            ev["load"] = json!("err");
+            ev["site"] = json!(msg_class(&e));
+        }
+        Err(pi) => {
+            ev["load"] = json!("panic");
+            ev["site"] = json!(panic_site(&pi));
+        }
+    }
+    out.ev(&ev);
+}
+
+fn run_c04(out: &mut Out, id: u64, kind: &str, p: &Pic, o: &AnsOpts) {
+    out.ev(&json!({"ev":"reset","case":id,"kind":kind}));
+    let buf = build(p);
+    emit_rt(out, "ans", id, kind, p, &buf, o.json(), &o.save_options(), true);
+}
+
+fn random_color(r: &mut StdRng, extra: &mut Vec<(u8, u8, u8)>, allow16: u32) -> u32 {
+    match r.gen_range(0..10) {
+        0..=6 => r.gen_range(0..allow16),
+        7 => {
+            // an xterm-256 colour (cube / grey ramp value)
+            let lv = [0u8, 95, 135, 175, 215, 255];
+            let c = if r.gen_bool(0.7) { (lv[r.gen_range(0..6)], lv[r.gen_range(0..6)], lv[r.gen_range(0..6)]) } else { let g = 8 + 10 * r.gen_range(0..24u8); (g, g, g) };
+            push_color(extra, c)
+        }
+        _ => push_color(extra, (r.gen(), r.gen(), r.gen())),
+    }
+}
+
+fn push_color(extra: &mut Vec<(u8, u8, u8)>, c: (u8, u8, u8)) -> u32 {
+    if let Some(i) = extra.iter().position(|x| *x == c) {
+        return 16 + i as u32;
+    }
+    if extra.len() >= 200 {
+        return 16 + (c.0 as u32 % extra.len() as u32);
+    }
+    extra.push(c);
+    16 + extra.len() as u32 - 1
+}
+
+fn random_ansi_pic(r: &mut StdRng, o: &AnsOpts, w: i32, h: i32, ice: IceMode) -> Pic {
+    // per-picture switches: most pictures use neither the bold attribute nor the extended attributes
+    let use_bold = r.gen_bool(0.15);
+    let use_ext = r.gen_bool(0.12);
+    // in ice mode the blink attribute does not exist for a source cell (iCE colours replace blinking: TextAttribute::as_u8)
+    let use_blink = !matches!(ice, IceMode::Ice);
+    let mut extra = Vec::new();
+    let mut rows = Vec::new();
+    let style = r.gen_range(0..4); // 0 dense random, 1 runs (compressible), 2 sparse with many blanks, 3 mixed
+    for _y in 0..h {
+        let len = match r.gen_range(0..10) {
+            0 => 0,
+            1 | 2 => w,
+            3 => (w - 1).max(0),
+            _ => r.gen_range(0..=w),
+        };
+        let mut row: Vec<Cell> = Vec::new();
+        let mut cur = DEFAULT_CELL;
+        while (row.len() as i32) < len {
+            let change = match style { 0 => 0.9, 1 => 0.15, 2 => 0.3, _ => 0.5 };
+            if r.gen_bool(change) || row.is_empty() {
+                let ch = loop {
+                    let c: u32 = match r.gen_range(0..10) {
+                        0 | 1 => 32,
+                        2 => [0u32, 255, 32][r.gen_range(0..3)],
+                        3 => r.gen_range(0..32),
+                        4 => r.gen_range(127..256),
+                        _ => r.gen_range(33..127),
+                    };
+                    // characters the chosen control-character handling cannot encode are outside the domain
+                    if ANSI_CTRL.contains(&c) && o.ctrl != 1 {
+                        continue;
+                    }
+                    break c;
+                };
+                let mut flags = 0;
+                if use_bold && r.gen_bool(0.2) { flags |= 1; }
+                if use_blink && r.gen_bool(0.15) { flags |= 2; }
+                if use_ext && r.gen_bool(0.1) { flags |= 4 << r.gen_range(0..6); }
+                let attr_change = r.gen_bool(if style == 2 { 0.3 } else { 0.6 });
+                if attr_change {
+                    cur = Cell { ch, fg: random_color(r, &mut extra, 16), bg: random_color(r, &mut extra, 16), flags };
+                } else {
+                    cur.ch = ch;
+                }
+                if style == 2 && r.gen_bool(0.5) {
+                    cur = Cell { ch: 32, ..DEFAULT_CELL };
+                }
+            }
+            let run = if style == 0 { 1 } else { r.gen_range(1..=12) };
+            for _ in 0..run {
+                if (row.len() as i32) < len {
+                    row.push(cur);
+                }
+            }
+        }
+        rows.push(row);
+    }
+    Pic { w, h, ice, rows, extra_colors: extra }
+}
+
+pub fn c04(a: &Args) {
+    let path = a.str("out", "work/C04/trace");
+    let seed = a.u64("seed", 0);
+    let thorough = a.str("tier", "quick") == "thorough";
+    let shards = a.usize("shards", 4);
+    let mut outs: Vec<Out> = (0..shards).map(|i| Out::create(&format!("{path}-{i}.ndjson"))).collect();
+    let mut id = 0u64;
+    // (1) TLC-generated: option configurations and small-scope buffers
+    let mut cfgs: Vec<Value> = Vec::new();
+    let mut bufs: Vec<Value> = Vec::new();
+    if let Ok(text) = std::fs::read_to_string(a.str("gen", "gen/ansiout.ndjson")) {
+        for line in text.lines() {
+            let Ok(v) = serde_json::from_str::<Value>(line) else { continue };
+            match v["kind"].as_str() {
+                Some("cfg") => cfgs.push(v),
+                Some("buf") => bufs.push(v),
+                _ => {}
+            }
+        }
+    }
+    let mut r = rng(seed, 4);
+    cfgs.shuffle(&mut r);
+    bufs.shuffle(&mut r);
+    let n_small = if cfgs.is_empty() || bufs.is_empty() { 0 } else if thorough { cfgs.len().max(bufs.len()) * 4 } else { cfgs.len().max(bufs.len()) };
+    for i in 0..n_small {
+        // every configuration and every small buffer is used at least once; pairing rotates with the seed
+        let c = &cfgs[i % cfgs.len()];
+        let b = &bufs[(i + i / bufs.len()) % bufs.len()];
+        let o = AnsOpts::from_json(c);
+        let w = b["w"].as_i64().unwrap_or(1) as i32;
+        let place_right = b["place"].as_u64().unwrap_or(0) == 1;
+        let rows_v = b["rows"].as_array().cloned().unwrap_or_default();
+        let mut rows = Vec::new();
+        for rv in &rows_v {
+            let ice_cfg = c["ice"].as_u64().unwrap_or(0) == 1;
+            let cells: Vec<Cell> = rv.as_array().map(|a| a.iter().map(|x| {
+                let mut c = alphabet_cell(x.as_u64().unwrap_or(0));
+                if ice_cfg && c.flags & 2 != 0 {
+                    // a source cell in ice mode has no blink attribute: the blinking blank becomes a blank on a bright background
+                    c.flags &= !2;
+                    c.bg += 8;
+                }
+                c
+            }).collect()).unwrap_or_default();
+            let mut row = Vec::new();
+            if place_right {
+                // cells before the pattern exist but are blanks
+                for _ in 0..(w as usize).saturating_sub(cells.len()) {
+                    row.push(DEFAULT_CELL);
+                }
+            }
+            row.extend(cells);
+            row.truncate(w as usize);
+            rows.push(row);
+        }
+        let mut o2 = o.clone();
+        if w != 80 {
+            o2.sauce = true; // widths other than 80 are in the domain only when SAUCE carries the width
+        }
+        let p = Pic { w, h: rows.len() as i32, ice: ice_of(c["ice"].as_u64().unwrap_or(0)), rows, extra_colors: vec![(18, 52, 86)] };
+        id += 1;
+        run_c04(&mut outs[(id as usize) % shards], id, "tlc", &p, &o2);
+    }
+    // (2) seeded random buffers, options pairwise-covering (every pair of option values occurs: random sampling of
+    // the 10 option dimensions with >= 300 samples covers all pairs; counted in the evidence by the check)
+    let n_rnd = if thorough { 6000 } else { 700 };
+    for i in 0..n_rnd {
+        let mut r = rng(seed, 40_000 + i);
+        let mut o = AnsOpts::random(&mut r);
+        let (w, h) = if i % 3 == 0 {
+            o.sauce = true;
+            (r.gen_range(1..=132), r.gen_range(1..=60))
+        } else {
+            (80, if r.gen_bool(0.2) { r.gen_range(26..=60) } else { r.gen_range(1..=25) })
+        };
+        let ice = ice_of(i % 3);
+        let p = random_ansi_pic(&mut r, &o, w, h, ice);
+        id += 1;
+        run_c04(&mut outs[(id as usize) % shards], 1_000_000 + i, "rnd", &p, &o);
+    }
+    let mut total = 0;
+    for o in &mut outs {
+        o.flush();
+        total += o.n;
+    }
+    eprintln!("c04: {n_small} TLC-generated cases ({} configurations, {} small buffers), {n_rnd} random cases, {total} events", cfgs.len(), bufs.len());
+}
+
+// ------------------------------------------------------------------ C15
+pub const C15_FORMATS: [(&str, i32); 6] = [("avt", 80), ("pcb", 80), ("msg", 80), ("an1", 80), ("asc", 80), ("ata", 40)];
+
+/// characters a format can hold in the C15 domain: printable CP437 (0x20..=0x7E, 0x80..=0xFE) minus the format's lead-in
+/// characters; ATASCII: the 7-bit ATASCII glyphs minus ESC, the cursor codes and clear/backspace/tab (and not NUL)
+fn c15_chars(fmt: &str) -> Vec<u32> {
+    if fmt == "ata" {
+        return (1u32..=0x7C).filter(|c| !(0x1B..=0x1F).contains(c)).collect();
+    }
+    (0x20u32..=0xFE).filter(|c| *c != 0x7F).filter(|c| match fmt {
+        "pcb" => *c != b'@' as u32,
+        "an1" => *c != b'|' as u32,
+        _ => true, // ^V ^Y ^L (Avatar) and ^A (Ctrl-A) are below 0x20 anyway
+    }).collect()
+}
+
+fn c15_attr(fmt: &str, fg: u32, bg: u32) -> (u32, u32) {
+    match fmt {
+        "ata" => if bg > 0 { (0, 7) } else { (7, 0) }, // inverse video
+        "asc" => (7, 0),
+        _ => (fg, bg),
+    }
+}
+
+fn build_c15(fmt: &str, p: &Pic) -> Buffer {
+    let mut buf = build(p);
+    if fmt == "ata" {
+        buf.buffer_type = BufferType::Atascii;
+    }
+    buf
+}
+
+fn run_c15(out: &mut Out, fmt: &str, id: u64, kind: &str, p: &Pic, prep: u64) {
+    out.ev(&json!({"ev":"reset","case":id,"kind":kind,"fmt":fmt}));
+    let buf = build_c15(fmt, p);
+    let mut so = SaveOptions::new();
+    so.screen_preparation = prep_of(prep);
+    so.lossles_output = true;
+    so.save_sauce = false;
+    emit_rt(out, fmt, id, kind, p, &buf, json!({"prep":prep}), &so, false);
+}
+
+fn random_c15_pic(r: &mut StdRng, fmt: &str, w: i32, h: i32) -> Pic {
+    let chars = c15_chars(fmt);
+    let mut rows = Vec::new();
+    let style = r.gen_range(0..3);
+    for y in 0..h {
+        let mut len = match r.gen_range(0..10) { 0 => 0, 1 | 2 => w, 3 => w - 1, 4 => 1, _ => r.gen_range(0..=w) };
+        if y + 1 == h && len == 0 {
+            len = r.gen_range(1..=w); // the last row is not empty
+        }
+        let mut row: Vec<Cell> = Vec::new();
+        let mut cur = DEFAULT_CELL;
+        while (row.len() as i32) < len {
+            if row.is_empty() || r.gen_bool(match style { 0 => 0.9, 1 => 0.2, _ => 0.5 }) {
+                let (fg, bg) = c15_attr(fmt, r.gen_range(0..16), if r.gen_bool(0.5) { 0 } else { r.gen_range(0..8) });
+                let ch = if r.gen_bool(0.25) { 32 } else { chars[r.gen_range(0..chars.len())] };
+                cur = Cell { ch, fg, bg, flags: 0 };
+            }
+            let run = if style == 0 { 1 } else { r.gen_range(1..=9) };
+            for _ in 0..run {
+                if (row.len() as i32) < len {
+                    row.push(cur);
+                }
+            }
+        }
+        if y + 1 == h {
+            // "whose last row is not empty": make sure something is visible in it
+            if let Some(l) = row.last_mut() {
+                if l.ch == 32 && l.bg == 0 { l.ch = chars[r.gen_range(0..chars.len())].max(33); }
+            }
+        }
+        rows.push(row);
+    }
+    Pic { w, h, ice: IceMode::Unlimited, rows, extra_colors: vec![] }
+}
+
+pub fn c15(a: &Args) {
+    let path = a.str("out", "work/C15/trace");
+    let seed = a.u64("seed", 0);
+    let thorough = a.str("tier", "quick") == "thorough";
+    let shards = a.usize("shards", 4);
+    let mut outs: Vec<Out> = (0..shards).map(|i| Out::create(&format!("{path}-{i}.ndjson"))).collect();
+    let mut id = 0u64;
+    // (1) TLC-generated: all ordered pairs of the 16 x 8 attributes, and the row shapes
+    let mut pairs: Vec<[u32; 4]> = Vec::new();
+    let mut shapes: Vec<(Vec<u64>, u64)> = Vec::new();
+    if let Ok(text) = std::fs::read_to_string(a.str("gen", "gen/textout.ndjson")) {
+        for line in text.lines() {
+            let Ok(v) = serde_json::from_str::<Value>(line) else { continue };
+            match v["kind"].as_str() {
+                Some("pair") => pairs.push([v["fg1"].as_u64().unwrap_or(0) as u32, v["bg1"].as_u64().unwrap_or(0) as u32, v["fg2"].as_u64().unwrap_or(0) as u32, v["bg2"].as_u64().unwrap_or(0) as u32]),
+                Some("shape") => shapes.push((v["lens"].as_array().map(|a| a.iter().map(|x| x.as_u64().unwrap_or(0)).collect()).unwrap_or_default(), v["prep"].as_u64().unwrap_or(0))),
+                _ => {}
+            }
+        }
+    }
+    let mut r = rng(seed, 15);
+    pairs.shuffle(&mut r);
+    let mut n_gen = 0;
+    for (fmt, w) in C15_FORMATS {
+        let chars = c15_chars(fmt);
+        // attribute transitions: 2 cells per pair, laid out row after row, 40 rows per buffer
+        if fmt != "asc" && fmt != "ata" && !pairs.is_empty() {
+            let cells: Vec<Cell> = pairs.iter().flat_map(|p| {
+                let c1 = chars[(p[0] * 7 + p[1]) as usize % chars.len()].max(33);
+                let c2 = chars[(p[2] * 5 + p[3] + 11) as usize % chars.len()].max(33);
+                [Cell { ch: c1, fg: p[0], bg: p[1], flags: 0 }, Cell { ch: c2, fg: p[2], bg: p[3], flags: 0 }]
+            }).collect();
+            let per_buf = (w * 40) as usize;
+            for (k, chunk) in cells.chunks(per_buf).enumerate() {
+                let rows: Vec<Vec<Cell>> = chunk.chunks(w as usize).map(<[Cell]>::to_vec).collect();
+                let p = Pic { w, h: rows.len() as i32, ice: IceMode::Unlimited, rows, extra_colors: vec![] };
+                id += 1;
+                n_gen += 1;
+                run_c15(&mut outs[(id as usize) % shards], fmt, id, "tlc-pairs", &p, (k % 3) as u64);
+            }
+        }
+        // row shapes: lengths from {0, 1, 2, w-1, w} encoded as classes 0..4
+        for (lens, prep) in &shapes {
+            let rows: Vec<Vec<Cell>> = lens.iter().enumerate().map(|(y, &cl)| {
+                let len = match cl { 0 => 0, 1 => 1, 2 => 2, 3 => w - 1, _ => w };
+                (0..len).map(|x| {
+                    let (fg, bg) = c15_attr(fmt, ((x + y as i32 * 3) % 16) as u32, ((x / 3 + y as i32) % 8) as u32);
+                    Cell { ch: chars[(x as usize * 13 + y * 7) % chars.len()].max(33), fg, bg, flags: 0 }
+                }).collect()
+            }).collect();
+            let p = Pic { w, h: rows.len() as i32, ice: IceMode::Unlimited, rows, extra_colors: vec![] };
+            id += 1;
+            n_gen += 1;
+            run_c15(&mut outs[(id as usize) % shards], fmt, id, "tlc-shape", &p, *prep);
+        }
+    }
+    // (2) every row length 0..=w in one picture each (three pictures of <= 40 rows), then seeded random pictures
+    let n_rnd = if thorough { 1500 } else { 150 };
+    let mut n_random = 0;
+    for (fmt, w) in C15_FORMATS {
+        let chars = c15_chars(fmt);
+        for part in 0..3 {
+            let lens: Vec<i32> = (0..=w).filter(|l| l % 3 == part).collect();
+            let mut rows: Vec<Vec<Cell>> = lens.iter().map(|&len| (0..len).map(|x| {
+                let (fg, bg) = c15_attr(fmt, ((x * 7 + len) % 16) as u32, ((x + len) % 8) as u32);
+                Cell { ch: chars[((x * 31 + len * 17) as usize) % chars.len()].max(33), fg, bg, flags: 0 }
+            }).collect()).collect();
+            if rows.last().map_or(true, Vec::is_empty) {
+                rows.push(vec![Cell { ch: 65, ..DEFAULT_CELL }]);
+            }
+            rows.truncate(40);
+            if rows.last().map_or(true, Vec::is_empty) {
+                rows.pop();
+            }
+            let p = Pic { w, h: rows.len() as i32, ice: IceMode::Unlimited, rows, extra_colors: vec![] };
+            id += 1;
+            n_random += 1;
+            run_c15(&mut outs[(id as usize) % shards], fmt, id, "lengths", &p, part as u64);
+        }
+        for i in 0..n_rnd {
+            let mut r = rng(seed, 150_000 + id);
+            let h = r.gen_range(1..=40);
+            let p = random_c15_pic(&mut r, fmt, w, h);
+            id += 1;
+            n_random += 1;
+            run_c15(&mut outs[(id as usize) % shards], fmt, 1_000_000 + id, "rnd", &p, i % 3);
+        }
+    }
+    let mut total = 0;
+    for o in &mut outs {
+        o.flush();
+        total += o.n;
+    }
+    eprintln!("c15: {n_gen} TLC-generated cases ({} attribute pairs, {} row shapes), {n_random} length/random cases, {total} events", pairs.len(), shapes.len());
 }
